@@ -281,9 +281,16 @@ def run(ctx):
     spool = [t for t in F.strings_upto(F.ALPHABET, 2) if all(cc <= F.Z3_MAX_CHAR for cc in t)]
     okc = [cc for cc in F.CODEC_ALPHABET if cc <= F.Z3_MAX_CHAR and not 0xD800 <= cc <= 0xDFFF]
     spool += [tuple(rng.choice(okc) for _ in range(rng.randrange(1, 9))) for _ in range(ctx.pick(100, 1000))]
-    spool += [F.cps("\\u{48}"), F.cps("\x00z"), (92, 117), F.cps("\\u{5c}u{48}"), (0x2FFFF, 0, 0xFF, 0x100)]
+    # text that LOOKS like an escape in some syntax a decoder might know (Z3 prints only \\u{h..}; everything else is literal text)
+    tail = [F.cps("\\u{48}"), F.cps("\x00z"), (92, 117), F.cps("\\u{5c}u{48}"), (0x2FFFF, 0, 0xFF, 0x100)]
+    tail += [F.cps(t_) for t_ in ("\\x41", "C:\\x64\\bin", "\\x4", "\\xZZ", "\\n", "\\t", "\\\\", "\\101", "\\0", "\\u0041", "\\U00000041", "\\N{BULLET}", "&#x41;", "%41",
+                                   "\\u{41", "\\u41}", "a\\x41b\\x42")]
+    for _ in range(ctx.pick(20, 200)):
+        hx = "0123456789abcdefABCDEF"
+        tail.append(F.cps(rng.choice(["", "a", "\\"]) + "\\" + rng.choice(["x", "x", "u", "U", "0", "n"]) + "".join(rng.choice(hx) for _ in range(rng.choice([1, 2, 2, 4, 8]))) + rng.choice(["", "z"])))
+    spool += tail
     if not ctx.thorough():
-        spool = rng.sample(spool, 220) + spool[-5:]
+        spool = rng.sample(spool[:-len(tail)], 180) + tail
     for t in spool:
         tag = "escape-relevant" if (92 in t or any(cc == 0 or cc > 255 for cc in t)) else "plain"
         ctx.distinct(("str", t))
